@@ -22,11 +22,13 @@ pub mod c09;
 pub mod c10;
 pub mod c12;
 pub mod c14;
+pub mod c15;
+pub mod c16;
 pub mod c17;
 
 use runner::{Run, Sub};
 
-pub const PROPS: &[&str] = &["C01", "C02", "C03", "C04", "C05", "C06", "C07", "C09", "C10", "C12", "C14", "C17"];
+pub const PROPS: &[&str] = &["C01", "C02", "C03", "C04", "C05", "C06", "C07", "C09", "C10", "C12", "C14", "C15", "C16", "C17"];
 
 pub fn subs_of(prop: &str) -> Option<Vec<Sub>> {
     match prop {
@@ -41,6 +43,8 @@ pub fn subs_of(prop: &str) -> Option<Vec<Sub>> {
         "C10" => Some(c10::subs()),
         "C12" => Some(c12::subs()),
         "C14" => Some(c14::subs()),
+        "C15" => Some(c15::subs()),
+        "C16" => Some(c16::subs()),
         "C17" => Some(c17::subs()),
         _ => None,
     }
@@ -59,6 +63,8 @@ pub fn run_prop(run: &Run) -> bool {
         "C10" => c10::run(run),
         "C12" => c12::run(run),
         "C14" => c14::run(run),
+        "C15" => c15::run(run),
+        "C16" => c16::run(run),
         "C17" => c17::run(run),
         _ => return false,
     }
@@ -82,6 +88,7 @@ pub fn replay_raw(prop: &str, bytes: &[u8]) -> Option<runner::CaseResult> {
             let s = c04::matrix_recipe().build();
             Some(c05::check_input(&s, &String::from_utf8_lossy(bytes), &mut st, "artifact"))
         }
+        "C14" => Some(c14::check_document(bytes)),
         _ => None,
     }
 }
